@@ -1,7 +1,7 @@
 """C10 The cache is the Argon2d memory fill and is identical across implementations."""
 import astq
 from rules import argon, blake, driver, spec
-from rules.C14 import rule_globals
+from rules.C14 import rule_globals, rule_globals_ast
 
 LEVEL = 'other'
 TECHNIQUE = 'sibling comparison of the three fill_segment implementations on normalised resolved ASTs, structural comparison of index_alpha / H0 / H\' with RFC 9106, parameter-table agreement with the specification, flag-to-implementation dispatch rules; fixed-width evaluation of index_alpha; truth tables of path conditions'
@@ -27,3 +27,4 @@ def run(ctx, R):
     blake.rule_update_final(ctx, R, F)
     driver.rule_bind_key(ctx, R, F)   # the fill is redone whenever the key differs in length or in any byte
     rule_globals(ctx, R)              # the fill keeps no static state: concurrent fills of different caches cannot mix
+    rule_globals_ast(ctx, R)
